@@ -5,7 +5,7 @@ git -C ${MQ:-/tmp/mq}/repo checkout -q -- . ; git -C ${MQ:-/tmp/mq}/repo apply "
 cd ${MQ:-/tmp/mq}/verif
 for id in "$@"; do
   s=$(date +%s); out=$(timeout ${CHECK_TIMEOUT:-900} ./check "$id" "${TIER:-quick}" 2>&1); code=$?; e=$(date +%s)
-  if [ $code -eq 1 ] && echo "$out" | grep -q "^VIOLATION property=$id"; then
+  if [ $code -eq 1 ] && echo "$out" | grep -q "VIOLATION property=$id"; then
      echo "DETECTED $id ($((e-s))s): $(echo "$out" | grep 'identity:' | sed 's/^ *identity: //' | sort -u | head -4 | tr '\n' ';')"
   elif [ $code -eq 0 ]; then echo "missed   $id ($((e-s))s)"
   else echo "MACHINERY($code) $id: $(echo "$out" | tail -3 | tr '\n' ' ')"; fi
